@@ -697,8 +697,8 @@ package netty
 //@   ensures fires_write: implies(count("recv c.ctx.Done()") == 0, count("Pipeline.FireChannelWrite") == 1 && evrecv(first("Pipeline.FireChannelWrite")) == old(c.pipeline) && evarg(first("Pipeline.FireChannelWrite"), 0) == message)
 //@   ensures inactive_fails: implies(count("recv c.ctx.Done()") == 1, count("Pipeline.FireChannelWrite") == 0 && evres(0, 0) != 0)
 //@   ensures exception_at_most_once: count("Pipeline.FireChannelException") <= 1 && implies(count("Pipeline.FireChannelException") == 1, first("Pipeline.FireChannelException") > first("Pipeline.FireChannelWrite"))
-//@   ensures closes_only_on_wrapped_net_error@C07: count("errors.As") <= 1 && implies(count("netty.channel.Close") >= 1, count("errors.As") == 1 && evres(first("errors.As"), 0) && evarg(first("netty.channel.Close"), 1) == evarg(first("errors.As"), 0) && count("netty.channel.Close") == 1)
-//@   ensures non_timeout_net_error_closes@C07: implies(count("errors.As") == 1 && evres(first("errors.As"), 0), evis(first("errors.As") + 1, "net.Error.Timeout") && (evres(first("errors.As") + 1, 0) || count("netty.channel.Close") == 1))
+//@   ensures closes_only_on_wrapped_net_error: count("errors.As") <= 1 && implies(count("netty.channel.Close") >= 1, count("errors.As") == 1 && evres(first("errors.As"), 0) && evarg(first("netty.channel.Close"), 1) == evarg(first("errors.As"), 0) && count("netty.channel.Close") == 1)
+//@   ensures non_timeout_net_error_closes: implies(count("errors.As") == 1 && evres(first("errors.As"), 0), evis(first("errors.As") + 1, "net.Error.Timeout") && (evres(first("errors.As") + 1, 0) || count("netty.channel.Close") == 1))
 //@   ensures closed_rejects@C11: implies(old(closedState(c)), result != nil && count("Pipeline.FireChannelWrite") == 0)
 //@ property C07
 //@ func (*channel).Trigger
@@ -707,8 +707,8 @@ package netty
 //@   preserves handlerContext.*, pipeline.*, ghost node, ghost pos, channel.ctx, channel.cancel, channel.transport, channel.executor, channel.pipeline, channel.writeQueue, channel.untilWrite, channel.writeBuffers, channel.recycleBuffers, channel.id, channel.closed
 //@   ensures fires_event: count("Pipeline.FireChannelEvent") == 1 && evis(0, "Pipeline.FireChannelEvent") && evrecv(0) == old(c.pipeline) && evarg(0, 0) == event
 //@   ensures exception_at_most_once: count("Pipeline.FireChannelException") <= 1
-//@   ensures closes_only_on_wrapped_net_error@C07: count("errors.As") <= 1 && implies(count("netty.channel.Close") >= 1, count("errors.As") == 1 && evres(first("errors.As"), 0) && evarg(first("netty.channel.Close"), 1) == evarg(first("errors.As"), 0) && count("netty.channel.Close") == 1)
-//@   ensures non_timeout_net_error_closes@C07: implies(count("errors.As") == 1 && evres(first("errors.As"), 0), evis(first("errors.As") + 1, "net.Error.Timeout") && (evres(first("errors.As") + 1, 0) || count("netty.channel.Close") == 1))
+//@   ensures closes_only_on_wrapped_net_error: count("errors.As") <= 1 && implies(count("netty.channel.Close") >= 1, count("errors.As") == 1 && evres(first("errors.As"), 0) && evarg(first("netty.channel.Close"), 1) == evarg(first("errors.As"), 0) && count("netty.channel.Close") == 1)
+//@   ensures non_timeout_net_error_closes: implies(count("errors.As") == 1 && evres(first("errors.As"), 0), evis(first("errors.As") + 1, "net.Error.Timeout") && (evres(first("errors.As") + 1, 0) || count("netty.channel.Close") == 1))
 
 // ---------------------------------------------------------------------------
 // lifecycle (C05, C07, C13)
@@ -745,7 +745,7 @@ package netty
 //@   loop 0 emits
 //@   loop 0 invariant chinv(c)
 //@   loop 0 invariant one_read_per_iteration: implies(nemitted() > 0, evis(0, "select nonblocking") && evis(1, "select default") && evis(2, "Pipeline.FireChannelRead") && evrecv(2) == c.pipeline && evarg(2, 0) == c.transport && count("Pipeline.FireChannelRead") == 1 && count("Pipeline.FireChannelActive") == 0 && count("Pipeline.FireChannelException") <= 1)
-//@   loop 0 invariant read_failure_closes_only_on_wrapped_net_error@C07: count("errors.As") <= 1 && implies(count("netty.channel.Close") >= 1, count("errors.As") == 1 && evres(first("errors.As"), 0) && evarg(first("netty.channel.Close"), 1) == evarg(first("errors.As"), 0) && count("netty.channel.Close") == 1) && implies(count("errors.As") == 1 && evres(first("errors.As"), 0), evis(first("errors.As") + 1, "net.Error.Timeout") && (evres(first("errors.As") + 1, 0) || count("netty.channel.Close") == 1))
+//@   loop 0 invariant read_failure_closes_only_on_wrapped_net_error: count("errors.As") <= 1 && implies(count("netty.channel.Close") >= 1, count("errors.As") == 1 && evres(first("errors.As"), 0) && evarg(first("netty.channel.Close"), 1) == evarg(first("errors.As"), 0) && count("netty.channel.Close") == 1) && implies(count("errors.As") == 1 && evres(first("errors.As"), 0), evis(first("errors.As") + 1, "net.Error.Timeout") && (evres(first("errors.As") + 1, 0) || count("netty.channel.Close") == 1))
 //@   ensures exits_through_close: evis(nemitted()-1, "netty.channel.Close") && evarg(nemitted()-1, 0) == c
 //@   ensures stops_when_cancelled: implies(count("select nonblocking") >= 1, evis(nemitted()-2, "recv c.ctx.Done()"))
 //@ order (*channel).readLoop: "readLoop$2" dominates "invokeMethod"
